@@ -170,8 +170,23 @@ def coq_case(T, v):
   return '(%s, %s, %s, %s, %s)' % (pv.ctype_lit(T), vl, tl, wl, pv.blit(right)), w
 
 
-CHECK = ('fun c => match c with (T, v, tbl, w, r) => '
-         'value_eqb (convert (oracles_of tbl) T v) w && Bool.eqb (is_right_type T v) r end')
+# hand model AND the definitions generated from the source, both against what the implementation returned
+CHECK = ('fun c => match c with (T, v, tbl, w, r) => let orc := oracles_of tbl in '
+         'value_eqb (convert orc T v) w && Bool.eqb (is_right_type T v) r && '
+         'match gen_convert_T orc T v with Ok w2 => value_eqb w2 w | Raise _ => false end && '
+         'match gen_is_right_type orc T v with Ok r2 => Bool.eqb r2 r | Raise _ => false end end')
+IMPORTS = ['Grist.Lib.PyFloat', 'Grist.Model.Values', 'Grist.Model.ValuesPy', 'GristGen.Usertypes_gen']
+
+
+def regenerate(ctx):
+  """coq/gen/Usertypes_gen.v from the current usertypes.py / objtypes.py (fail closed)."""
+  import os
+  from harness import ut2v
+  try:
+    text = ut2v.translate(core.GRIST)
+  except ut2v.Untranslatable as e:
+    raise core.TieBroken('usertypes.py is outside the translated subset: %s' % e)
+  core.write_if_changed(os.path.join(core.COQ, 'gen', 'Usertypes_gen.v'), text)
 
 
 def monitors(ctx):
@@ -223,7 +238,7 @@ def correspond(ctx):
     if not second:
       work.append((T, w))
   ctx.log('literals for %d cases written' % len(coq))
-  bad = ctx.run_cases('convert', ['Grist.Lib.PyFloat', 'Grist.Model.Values'], CHECK, coq, shard=ctx.n(100, 60), timeout=ctx.n(600, 3000))
+  bad = ctx.run_cases('convert', IMPORTS, CHECK, coq, shard=ctx.n(100, 60), timeout=ctx.n(600, 3000))
   for k in bad[:8]:
     T, v = meta[k]
     ctx.broken('correspondence:model convert/is_right_type differs from usertypes.%s' % type(T).__name__,
